@@ -816,7 +816,83 @@ def run_late(case):
     return None
 
 
+def _failing_app():
+    from clikit.config import DefaultApplicationConfig
+    from clikit import ConsoleApplication
+    cfg = DefaultApplicationConfig("tool", "1.0")
+    cfg.set_catch_exceptions(False)
+    cfg.set_terminate_after_run(False)
+    with cfg.command("kalfa") as c:
+        c.set_description("first")
+        c.add_argument("target", 0, "a target")
+        with c.sub_command("kbravo") as sc:
+            sc.set_description("second")
+    with cfg.command("kcharl") as c:
+        c.set_description("third")
+        c.add_option("deep", "d", 0, "an option")
+    return ConsoleApplication(cfg)
+
+
+def _page(app, which, W=80, stream=None):
+    from clikit.api.io import IO, Input, Output
+    from clikit.formatter import PlainFormatter
+    from clikit.io.input_stream import StringInputStream
+    from clikit.io.output_stream import BufferedOutputStream
+    from clikit.ui.help import ApplicationHelp, CommandHelp
+    from clikit.ui.rectangle import Rectangle
+    out = stream or BufferedOutputStream()
+    io = IO(Input(StringInputStream("")), Output(out, PlainFormatter()), Output(BufferedOutputStream(), PlainFormatter()))
+    io.set_terminal_dimensions(Rectangle(W, 50))
+    (ApplicationHelp(app) if which is None else CommandHelp(app.get_command(which))).render(io)
+    return out.fetch()
+
+
+def failure_cases():
+    """a help rendering that FAILS at its k-th write to the output (closed pipe), for every k, then another page"""
+    out = []
+    for first in (None, "kalfa"):
+        for then in ("kcharl", None):
+            for k in range(1, 40):
+                out.append({"after_failure": True, "first": first, "then": then, "k": k})
+    return out
+
+
+def run_after_failure(case):
+    """-> ("done", violation or None) or ("beyond", None) when the first page has fewer than k writes"""
+    from clikit.io.output_stream import BufferedOutputStream
+
+    class Failing(BufferedOutputStream):
+        left = 0
+
+        def write(self, string):
+            Failing.left -= 1
+            if Failing.left < 0:
+                raise IOError("Broken pipe")
+            return BufferedOutputStream.write(self, string)
+
+    try:
+        want = _page(_failing_app(), case["then"])
+        app = _failing_app()
+        Failing.left = case["k"] - 1
+        try:
+            _page(app, case["first"], stream=Failing())
+            return "beyond", None
+        except IOError:
+            pass
+        got = _page(app, case["then"])
+        again = _page(app, case["then"])
+    except Exception as e:
+        return "done", report.viol("after-failure:crash:" + report.exc_site(e), "a help page rendered after a rendering that failed raised %r" % (e,), case)
+    if got != want or again != want:
+        return "done", report.viol("after-failure:page-differs", "the help page of %s rendered after a rendering of %s that failed at its write #%d "
+                                   "differs from that page on a fresh application" % (case["then"] or "the application", case["first"] or "the application", case["k"]),
+                                   case, want[:600], (got if got != want else again)[:600])
+    return "done", None
+
+
 def replay(case):
+    if isinstance(case, dict) and case.get("after_failure"):
+        return run_after_failure(case)[1]
     if isinstance(case, dict) and case.get("late"):
         return run_late(case)
     model = Model(case["app"])
@@ -875,9 +951,21 @@ def main():
             rep.violation(v)
     rep.part("late", cases=len(lc), what="command / sub-command (with, without alias) registered on a live application before or after a "
              "help page was rendered; the next listing (direct, help, --help) must contain it")
+    nfail = beyond = 0
+    for c in failure_cases():
+        st, v = run_after_failure(c)
+        if st == "beyond":
+            beyond += 1
+            continue
+        nfail += 1
+        if v:
+            rep.violation(v)
+    rep.part("after-failure", crash_points=nfail, beyond_last_write=beyond,
+             what="a help rendering (application page / command page) fails with IOError at its k-th write, for EVERY k; the next page "
+                  "(twice) must equal that page on a fresh application")
     for p, d in sorted(parts.items()):
         rep.part(p, **d)
-    rep.set("evaluations", sum(d["pages"] for d in parts.values()))
+    rep.set("evaluations", sum(d["pages"] for d in parts.values()) + nfail)
     rep.set("configurations", sum(d["configs"] - d["invalid"] - d["rejected"] for d in parts.values()))
     rep.set("units", sum(d["units"] for d in parts.values()))
     rep.set("distinct_nontrivial", sum(d["nontrivial"] for d in parts.values()))
